@@ -30,6 +30,7 @@ EDGES = [
     "FrozenEdge",  # read-only v1 / v2: ends cannot be re-pointed after construction
     "JoiningEdge",  # its __init__ calls back into the library (add_to_universe)
     "BondEdge",  # value equality: a--b == b--a
+    "LabelledEdge",  # class-level default overridden per instance through attributes=
 ]
 
 
